@@ -35,6 +35,7 @@ ssize_t verif_write(int fd, const void *buf, size_t n)
 	(void)fd;
 	int w = writes < 3 ? writes : 2; writes++;
 	if (write_mode[w] == 0) { maybe_crash(); return -1; }
+	if (write_mode[w] == 3 && writes <= 2) { maybe_crash(); return 0; }    /* nothing written, no error (only the first two calls: the update must end) */
 	size_t amount = write_mode[w] == 1 ? (size_t)write_amount[w] : n;
 	__CPROVER_assume(amount >= 1 && amount <= n);
 	const char *b = buf;
@@ -74,7 +75,10 @@ static cJSON *mkuser(const char *hash, const char *fg, const char *sg, int admin
 	if (fg) cJSON_AddItemToObject(auth, "fetchGroups", strarr1(fg));
 	if (sg) cJSON_AddItemToObject(auth, "setGroups", strarr1(sg));
 	cJSON_AddItemToObject(u, "auth", auth);
-	if (admin) cJSON_AddItemToObject(u, "admin", cJSON_CreateTrue());
+	if (admin == 1) cJSON_AddItemToObject(u, "admin", cJSON_CreateTrue());
+	if (admin == 2) cJSON_AddItemToObject(u, "admin", cJSON_CreateFalse());
+	if (admin == 3) cJSON_AddItemToObject(u, "admin", cJSON_CreateNull());
+	if (admin == 4) cJSON_AddItemToObject(u, "admin", mknumber(0));
 	if (readonly) cJSON_AddItemToObject(u, "readonly", cJSON_CreateTrue());
 	return u;
 }
@@ -95,6 +99,12 @@ static void install_db(void)
 	cJSON_AddItemToObject(cJSON_GetObjectItem(cJSON_GetObjectItem(us, "uc"), "auth"), "callGroups", strarr1("g1"));
 	cJSON_AddItemToObject(us, "us", mkuser("Hps", "g1", "g1", 0, 0));      /* "us" may fetch and SET g1 elements - but not call */
 	cJSON_AddItemToObject(us, "uo", mkuser("Hpo", 0, "g1", 0, 0));         /* "uo" may SET g1 elements but is in no fetch group */
+#if defined(PWCASE) && PWCASE >= 12
+	/* accounts whose "admin" entry is present but not true: false, null, the number 0 */
+	cJSON_AddItemToObject(us, "af", mkuser("Hpf", "g1", 0, 2, 0));
+	cJSON_AddItemToObject(us, "an", mkuser("Hpn", "g1", 0, 3, 0));
+	cJSON_AddItemToObject(us, "az", mkuser("Hpz", "g1", 0, 4, 0));
+#endif
 	cJSON_AddItemToObject(db, "users", us);
 	user_data = db; users = us; password_file = 5;
 	cJSON *g = cJSON_CreateArray(); cJSON_AddItemToArray(g, cJSON_CreateString("g1")); cJSON_AddItemToArray(g, cJSON_CreateString("g2")); cJSON_AddItemToArray(g, cJSON_CreateString("g"));
@@ -304,6 +314,12 @@ void harness_passwd(void)
 	__CPROVER_assume(!login(&P1, "adm", "bad")); target = "u1"; allowed = 0;   /* claimed to be the admin with a wrong password */
 #elif PWCASE == 11
 	__CPROVER_assume(login(&P1, "u2", "p2") && !login(&P1, "adm", "bad")); target = "u1"; allowed = 0;   /* authenticated as u2, then a failed claim to be the admin */
+#elif PWCASE == 12
+	__CPROVER_assume(login(&P1, "af", "pf")); target = "u1"; allowed = 0;      /* requester's "admin" entry is false */
+#elif PWCASE == 13
+	__CPROVER_assume(login(&P1, "an", "pn")); target = "u1"; allowed = 0;      /* requester's "admin" entry is null */
+#elif PWCASE == 14
+	__CPROVER_assume(login(&P1, "az", "pz")); target = "u1"; allowed = 0;      /* requester's "admin" entry is the number 0 */
 #endif
 	scn_build_begin(); cJSON *req = auth_req(5, "passwd", target, "nw"); scn_build_end();
 	reset_log();
@@ -360,11 +376,11 @@ void harness_crash_atomic(void)
 {
 	install_db();
 	trunc_fails = nd_bool();
-	for (int i = 0; i < 3; i++) { write_mode[i] = (int)nd_range(0, 2); write_amount[i] = (int)nd_range(1, 3); }
-	crash_after = (int)nd_range(-1, 6);
+	for (int i = 0; i < 3; i++) { write_mode[i] = (int)nd_range(0, i < 2 ? 3 : 2); write_amount[i] = (int)nd_range(1, 3); }
+	crash_after = (int)nd_range(-1, 8);
 	file_pos = (size_t)nd_range(0, 4);      /* where earlier reads / updates left the offset of the open file: anywhere */
 	int r = write_user_data();
-	CHECK(writes <= 4, "C20.update_terminates");
+	CHECK(writes <= 5, "C20.update_terminates");
 	int is_new = file_len == 3 && FILE_BYTES[0] == 'N' && FILE_BYTES[1] == 'E' && FILE_BYTES[2] == 'W';
 	if (r == 0) { CHECK(is_new, "C20.completed_update_leaves_exactly_the_new_database"); REACH("completed"); }
 	if (crashed) {
